@@ -10,7 +10,8 @@ from symx.values import SymBool
 from . import common
 
 TP = None
-STYLES = [("", ""), ("  ", " # c"), ("\t", "  # note: x"), ("      ", "")]      # (indentation of % lines, trailing comment)
+STYLES = [("", "", False), ("  ", " # c", False), ("\t", "  # note: x", False), ("      ", "", False),
+          ("  ", "", True)]      # (indentation of % lines, trailing comment, header continued over two lines with a backslash)
 INDENTS = [s_[0] for s_ in STYLES]
 COMMENTS = [s_[1] for s_ in STYLES]
 
@@ -26,7 +27,7 @@ class Gen:
         self.p = p
         self.depth = depth
         self.k = 0
-        self.indent, self.comment = STYLES[p.choose(len(STYLES), "control_line_style")]
+        self.indent, self.comment, self.continued = STYLES[p.choose(len(STYLES), "control_line_style")]
         self.simple = False
         self.fors = []              # enumerate counters of the enclosing `for` statements, innermost last
         self.nested_for = {0: 1, 1: 2}.get(depth, 2)      # budget of directly nested loops (loop.parent chains)
@@ -36,6 +37,9 @@ class Gen:
         return self.k
 
     def ctl(self, text):
+        if self.continued and " " in text:
+            kw, rest = text.split(" ", 1)
+            text = kw + " \\\n        " + rest          # the header goes on after a backslash-newline
         return "%s%% %s%s\n" % (self.indent, text, self.comment if not text.startswith("end") else "")
 
     def body(self, d, py_indent):
